@@ -77,7 +77,7 @@ def build_harness():
 
 # which regenerated tables each property's model, theorems or generators use (enums: every Lean file)
 GEN_DEPENDS = {
-    'C01': ['enums', 'parse'], 'C02': ['enums', 'lex', 'parse'], 'C03': ['enums', 'lex', 'parse'], 'C04': ['enums', 'lex', 'parse', ('RuntimeRefineCast', 'Garnish.Props.RuntimeRefine', r'^(C01_refine_(step|handler)_applyType|handlerSim_of_refinesCast)$'), ('C19Store', 'Garnish.Props.C19Store', r'^(basicStore_|decodes_of_unfold$)'), ('SourceProps5', 'Garnish.Props.SourceProps', r'^C01_'), ('RuntimeRefineSimple', 'Garnish.Props.RuntimeRefine', r'^C01_'), ('RuntimeRefineSimple2', 'Garnish.Props.RuntimeRefine', r'^C01_'), ('C01TextStoreSimple', 'Garnish.Props.C01TextStore', r'^C01_'), ('RuntimeRefineSimpleOn', 'Garnish.Props.RuntimeRefine', r'^C01_'), ('RuntimeRefineOn', 'Garnish.Props.RuntimeRefine', r'^C01_'), ('C01TextStoreOn', 'Garnish.Props.C01TextStore', r'^C01_'), ('RuntimeRefineOn1', 'Garnish.Props.RuntimeRefine', r'^C01_'), ('RuntimeRefineOn1', 'Garnish.Props.C01TextStore', r'^C01_'), ('RuntimeRefineOn2', 'Garnish.Props.RuntimeRefine', r'^C01_'), ('RuntimeRefineOn2', 'Garnish.Props.C01TextStore', r'^C01_'), ('C19StoreOn', 'Garnish.Props.C19StoreOn', r'^(basicStore_|basic_)'), ('RuntimeRefineOn3', 'Garnish.Props.RuntimeRefine', r'^C01_'), ('RuntimeRefineOn3', 'Garnish.Props.C01TextStore', r'^C01_'), ('RuntimeRefineOn4', 'Garnish.Props.RuntimeRefine', r'^C01_'), ('RuntimeRefineOn4', 'Garnish.Props.C01TextStore', r'^C01_'), ('RuntimeRefineOnBalanced', 'Garnish.Props.RuntimeRefine', r'^C01_'), ('C01TextStoreOnBalanced', 'Garnish.Props.C01TextStore', r'^C01_')],
+    'C01': ['enums', 'parse'], 'C02': ['enums', 'lex', 'parse'], 'C03': ['enums', 'lex', 'parse'], 'C04': ['enums', 'lex', 'parse', ('RuntimeRefineCast', 'Garnish.Props.RuntimeRefine', r'^(C01_refine_(step|handler)_applyType|handlerSim_of_refinesCast)$'), ('C19Store', 'Garnish.Props.C19Store', r'^(basicStore_|decodes_of_unfold$)'), ('SourceProps5', 'Garnish.Props.SourceProps', r'^C01_'), ('RuntimeRefineSimple', 'Garnish.Props.RuntimeRefine', r'^C01_'), ('RuntimeRefineSimple2', 'Garnish.Props.RuntimeRefine', r'^C01_'), ('C01TextStoreSimple', 'Garnish.Props.C01TextStore', r'^C01_'), ('RuntimeRefineSimpleOn', 'Garnish.Props.RuntimeRefine', r'^C01_'), ('RuntimeRefineOn', 'Garnish.Props.RuntimeRefine', r'^C01_'), ('C01TextStoreOn', 'Garnish.Props.C01TextStore', r'^C01_'), ('RuntimeRefineOn1', 'Garnish.Props.RuntimeRefine', r'^C01_'), ('RuntimeRefineOn1', 'Garnish.Props.C01TextStore', r'^C01_'), ('RuntimeRefineOn2', 'Garnish.Props.RuntimeRefine', r'^C01_'), ('RuntimeRefineOn2', 'Garnish.Props.C01TextStore', r'^C01_'), ('C19StoreOn', 'Garnish.Props.C19StoreOn', r'^(basicStore_|basic_)'), ('RuntimeRefineOn3', 'Garnish.Props.RuntimeRefine', r'^C01_'), ('RuntimeRefineOn3', 'Garnish.Props.C01TextStore', r'^C01_'), ('RuntimeRefineOn4', 'Garnish.Props.RuntimeRefine', r'^C01_'), ('RuntimeRefineOn4', 'Garnish.Props.C01TextStore', r'^C01_'), ('RuntimeRefineOnBalanced', 'Garnish.Props.RuntimeRefine', r'^C01_'), ('C01TextStoreOnBalanced', 'Garnish.Props.C01TextStore', r'^C01_'), ('RuntimeRefineNoCustom', 'Garnish.Props.RuntimeRefine', r'^C01_'), ('C01TextStoreOnBalancedFull', 'Garnish.Props.C01TextStore', r'^C01_'), ('C01TextStoreOnBy', 'Garnish.Props.C01TextStore', r'^C01_'), ('C01BuilderAddresses', 'Garnish.Props.C01TextStore', r'^real_|^reloc_')],
     'C05': ['enums', 'parse'], 'C06': ['enums'], 'C07': ['enums'], 'C08': ['enums'], 'C09': ['enums'], 'C10': ['enums', 'runtime', ('SourceProps', 'Garnish.Props.SourceProps', r'^C05_')],
     'C11': ['enums'], 'C12': ['enums'], 'C13': ['enums', 'lex'], 'C14': ['enums', 'lex'], 'C15': ['enums'], 'C16': ['enums', ('RuntimeRefineInternals', 'Garnish.Props.RuntimeRefine', r'^C11_'), ('SourceProps5', 'Garnish.Props.SourceProps', r'^C11_'), ('C14Lex', 'Garnish.Props.C14Lex', r'^C11_')],
     'C17': ['enums'], 'C18': ['enums', 'lex', 'parse'], 'C19': ['enums'], 'C20': ['enums', 'parse', ('SourceProps', 'Garnish.Props.SourceProps', r'^C17_'), ('RuntimeRefineTrace', 'Garnish.Props.RuntimeRefine', r'^C17_'), ('RuntimeRefineRunTrace', 'Garnish.Props.RuntimeRefine', r'^C17_'), ('RuntimeRefineRunTrace', 'Garnish.Props.C01TextStore', r'^C17_')],
@@ -94,7 +94,7 @@ AUDIT_EXTRA = {
     'C17': [('C01Compile', 'Garnish.Props.C01', r'^(C17_|C01_compile_correct$|compile_env$)'), ('RuntimeRefineAccess', 'Garnish.Props.RuntimeRefine', r'^C17_'), ('RuntimeRefineApply', 'Garnish.Props.RuntimeRefine', r'^C17_')],
     'C11': [('C11Refine', 'Garnish.Props.C11Refine', None)],
     'C18': [('C18Lex', 'Garnish.Props.C18Lex', None), ('C18Parse', 'Garnish.Props.C18Parse', None), ('C02Parse', 'Garnish.Props.C02Parse', r'^C18_'), ('C18Text', 'Garnish.Props.C18Text', None), ('C02Support', 'Garnish.Props.C02Support', r'^C18_'), ('C18Text2', 'Garnish.Props.C18Text2', None), ('C18Text3', 'Garnish.Props.C18Text3', None), ('C18Wrap', 'Garnish.Props.C18Wrap', None)],
-    'C02': [('C02Parse', 'Garnish.Props.C02Parse', r'^C02_'), ('C02Numbered', 'Garnish.Props.C02Numbered', r'^C02_'), ('C02Frag10', 'Garnish.Props.C02Frag10', None), ('C02Support', 'Garnish.Props.C02Support', r'^(frag9|fragBlocks|refParse_|C02_)')],
+    'C02': [('C02Parse', 'Garnish.Props.C02Parse', r'^C02_'), ('C02Numbered', 'Garnish.Props.C02Numbered', r'^C02_'), ('C02Frag10', 'Garnish.Props.C02Frag10', None), ('C02Support', 'Garnish.Props.C02Support', r'^(frag9|fragBlocks|refParse_|C02_)'), ('C02Blocks', 'Garnish.Props.C02Blocks', None)],
     'C04': [('C02Parse', 'Garnish.Props.C02Parse', r'^C04_'), ('C04Build', 'Garnish.Props.C04Build', None), ('C04Order', 'Garnish.Props.C04Order', None), ('C04Eval', 'Garnish.Props.C04Order', None), ('C04OrderEx', 'Garnish.Props.C04Order', None), ('C04Source', 'Garnish.Props.C04Source', None), ('SourceProps', 'Garnish.Props.SourceProps', r'^C04_'), ('C04Eval2','Garnish.Props.C04Order',None), ('C04Eval3','Garnish.Props.C04Order',None), ('C04Eval4','Garnish.Props.C04Order',None), ('C04Eval5','Garnish.Props.C04Order',None)],
     'C03': [('C03Lex', 'Garnish.Props.C03Lex', None)],
     'C20': [('C20Compile', 'Garnish.Props.C20', None), ('SourceProps', 'Garnish.Props.SourceProps', r'^C20_')],
